@@ -80,3 +80,223 @@ Proof.
   - intros E. pose proof (iso_range o) as R. rewrite E in R. lia.
   - intros (R & -> & Hd). rewrite (iso_of_range y) by exact R. f_equal; [f_equal|]; lia.
 Qed.
+Lemma year_of_ord_range o : 1 <= o <= max_ord -> 1 <= year_of_ord o <= 9999.
+Proof.
+  intros H. pose proof (year_of_ord_spec o) as S. unfold max_ord in H.
+  split.
+  - destruct (Z_lt_le_dec (year_of_ord o) 1) as [L|L]; [|exact L].
+    assert (days_before_year (year_of_ord o + 1) <= days_before_year 1) by (apply days_before_year_mono; lia).
+    change (days_before_year 1) with 0 in *. lia.
+  - destruct (Z_lt_le_dec 9999 (year_of_ord o)) as [L|L]; [|exact L].
+    assert (days_before_year 10000 <= days_before_year (year_of_ord o)) by (apply days_before_year_mono; lia).
+    change (days_before_year 10000) with 3652059 in *. lia.
+Qed.
+
+Lemma ymd_of_ord_valid o : 1 <= o <= max_ord ->
+  let '(y, m, d) := ymd_of_ord o in valid_ymd y m d = true /\ ord_of_ymd y m d = o.
+Proof.
+  intros H. pose proof (ord_of_ymd_of_ord o) as P. pose proof (year_of_ord_range o H) as R.
+  unfold ymd_of_ord in *. cbv zeta in *. unfold valid_ymd. lia.
+Qed.
+
+Definition week_ord (y w d : Z) : Z := w1m y + 7 * (w - 1) + (d - 1).
+
+Lemma calculate_weekdate_spec y w d : 1 <= y <= 9999 -> 1 <= w <= 53 -> 1 <= d <= 7 ->
+  calculate_weekdate y w d =
+  if (week_ord y w d <=? max_ord) && (week_ord y w d <? w1m (y + 1))
+  then Ok (ymd_of_ord (week_ord y w d)) else Err ValueError.
+Proof.
+  intros Hy Hw Hd. unfold calculate_weekdate.
+  replace (negb ((0 <? w) && (w <? 54))) with false by lia.
+  replace (negb ((0 <? d) && (d <? 8))) with false by lia.
+  unfold mk_date. replace (valid_ymd y 1 4) with true by (unfold valid_ymd; change (dim y 1) with 31; lia).
+  cbn [bind].
+  pose proof (w1m_bounds y) as B0. pose proof (w1m_bounds (y + 1)) as B1.
+  pose proof (days_before_year_succ y) as D2. pose proof (year_len_cases y).
+  assert (J4 : w1m y <= ord_of_ymd y 1 4 < w1m (y + 1)) by (rewrite ord_jan; lia).
+  rewrite (iso_of_range y _ J4). rewrite ord_jan in *.
+  unfold date_add_days at 1. rewrite ord_jan.
+  assert (W1 : days_before_year y + 4 + - ((days_before_year y + 4 - w1m y) mod 7 + 1 - 1) = w1m y) by lia.
+  rewrite W1.
+  assert (P1 : 1 <= w1m y).
+  { assert (days_before_year 1 <= days_before_year y) by (apply days_before_year_mono; lia).
+    change (days_before_year 1) with 0 in *.
+    destruct (Z.eq_dec y 1) as [->|N]; [vm_compute; discriminate|].
+    assert (days_before_year (1 + 1) <= days_before_year y) by (apply days_before_year_mono; lia).
+    change (days_before_year (1 + 1)) with 365 in *. lia. }
+  assert (P2 : w1m y <= max_ord).
+  { assert (days_before_year y <= days_before_year 9999) by (apply days_before_year_mono; lia).
+    change (days_before_year 9999) with 3651694 in *. unfold max_ord. lia. }
+  replace ((1 <=? w1m y) && (w1m y <=? max_ord)) with true by lia. cbn [bind].
+  pose proof (ymd_of_ord_valid (w1m y) ltac:(lia)) as V1.
+  destruct (ymd_of_ord (w1m y)) as [[y1 m1] d1]. destruct V1 as [_ O1].
+  unfold date_add_days. rewrite O1. fold (week_ord y w d).
+  replace (w1m y + ((w - 1) * 7 + (d - 1))) with (week_ord y w d) by (unfold week_ord; lia).
+  assert (P3 : 1 <= week_ord y w d) by (unfold week_ord; lia).
+  replace (1 <=? week_ord y w d) with true by lia. cbn [andb].
+  destruct (week_ord y w d <=? max_ord) eqn:E1; cbn [andb]; [|reflexivity].
+  pose proof (ymd_of_ord_valid (week_ord y w d) ltac:(lia)) as V2.
+  destruct (ymd_of_ord (week_ord y w d)) as [[y2 m2] d2]. destruct V2 as [_ O2]. rewrite O2.
+  destruct (week_ord y w d <? w1m (y + 1)) eqn:E2.
+  - assert (R : w1m y <= week_ord y w d < w1m (y + 1)) by (unfold week_ord in *; lia).
+    rewrite (iso_of_range y _ R). unfold week_ord.
+    replace (negb ((w1m y + 7 * (w - 1) + (d - 1) - w1m y) / 7 + 1 =? w)) with false by lia.
+    reflexivity.
+  - (* week 53 of a 52-week year: the date is in week 1 of the next ISO year *)
+    pose proof (w1m_succ y) as S1. pose proof (w1m_succ (y + 1)) as S2.
+    assert (R : w1m (y + 1) <= week_ord y w d < w1m (y + 1 + 1)) by (unfold week_ord in *; lia).
+    rewrite (iso_of_range (y + 1) _ R). unfold week_ord in *.
+    replace (negb ((w1m y + 7 * (w - 1) + (d - 1) - w1m (y + 1)) / 7 + 1 =? w)) with true by lia.
+    reflexivity.
+Qed.
+
+Lemma triple_eqb_iff a b : triple_eqb a b = true <-> a = b.
+Proof.
+  destruct a as [[a1 a2] a3], b as [[b1 b2] b3]. unfold triple_eqb. split.
+  - intros H. f_equal; [f_equal|]; lia.
+  - intros [= -> -> ->]. lia.
+Qed.
+
+Lemma find_unique {A} (P : A -> bool) l k0 :
+  In k0 l -> P k0 = true -> (forall k, In k l -> P k = true -> k = k0) -> find P l = Some k0.
+Proof.
+  induction l as [|x l IH]; intros Hin Hp Hu; [destruct Hin|].
+  cbn [find]. destruct (P x) eqn:E.
+  - f_equal. apply Hu; [now left | exact E].
+  - destruct Hin as [->|Hin]; [congruence|]. apply IH; auto. intros k Hk. apply Hu. now right.
+Qed.
+
+Lemma find_none' {A} (P : A -> bool) l : (forall k, In k l -> P k = false) -> find P l = None.
+Proof.
+  induction l as [|x l IH]; intros H; [reflexivity|]. cbn [find].
+  rewrite (H x) by now left. apply IH. intros k Hk. apply H. now right.
+Qed.
+
+Lemma in_window k : In k (zrange (-3) 9) <-> -3 <= k <= 9.
+Proof. change (zrange (-3) 9) with [-3; -2; -1; 0; 1; 2; 3; 4; 5; 6; 7; 8; 9]. cbn [In]. lia. Qed.
+
+Definition week_ok (y w d : Z) : bool :=
+  let o := week_ord y w d in
+  (1 <=? o) && (o <=? max_ord) && (w1m y <=? o) && (o <? w1m (y + 1)) && (1 <=? d) && (d <=? 7).
+
+Lemma weekdate_of_spec y w d :
+  weekdate_of y w d = if week_ok y w d then Some (ymd_of_ord (week_ord y w d)) else None.
+Proof.
+  unfold weekdate_of. cbv zeta. set (base := days_before_year y + 1 + 7 * (w - 1)).
+  set (P := fun k : Z => (1 <=? base + k) && (base + k <=? max_ord) &&
+                         triple_eqb (isocalendar (base + k)) (y, w, d)).
+  assert (PI : forall k, P k = true <->
+            (1 <= base + k <= max_ord /\ w1m y <= base + k < w1m (y + 1) /\
+             base + k = week_ord y w d /\ 1 <= d <= 7)).
+  { intros k. unfold P. rewrite !andb_true_iff, triple_eqb_iff, iso_iff. unfold week_ord. lia. }
+  pose proof (w1m_bounds y) as B0.
+  destruct (week_ok y w d) eqn:OK.
+  - unfold week_ok in OK. cbv zeta in OK.
+    rewrite (find_unique P _ (week_ord y w d - base)).
+    + f_equal. f_equal. lia.
+    + apply in_window. unfold week_ord, base in *. lia.
+    + apply PI. replace (base + (week_ord y w d - base)) with (week_ord y w d) by lia. lia.
+    + intros k _ Hk. apply PI in Hk. lia.
+  - rewrite find_none'; [reflexivity|]. intros k _.
+    destruct (P k) eqn:E; [|reflexivity]. apply PI in E. unfold week_ok in OK. cbv zeta in OK. lia.
+Qed.
+
+Theorem weekdate_equiv y w d : calculate_weekdate y w d = lift (weekdate_of y w d).
+Proof.
+  rewrite weekdate_of_spec.
+  pose proof (w1m_bounds y) as B0. pose proof (w1m_bounds (y + 1)) as B1.
+  pose proof (w1m_succ y) as S1.
+  destruct (Z_lt_le_dec w 1) as [W1|W1].
+  { unfold calculate_weekdate. replace (negb ((0 <? w) && (w <? 54))) with true by lia.
+    replace (week_ok y w d) with false; [reflexivity|]. unfold week_ok, week_ord. lia. }
+  destruct (Z_lt_le_dec 53 w) as [W2|W2].
+  { unfold calculate_weekdate. replace (negb ((0 <? w) && (w <? 54))) with true by lia.
+    replace (week_ok y w d) with false; [reflexivity|]. unfold week_ok, week_ord. lia. }
+  destruct (Z_lt_le_dec d 1) as [D1|D1].
+  { unfold calculate_weekdate. replace (negb ((0 <? w) && (w <? 54))) with false by lia.
+    replace (negb ((0 <? d) && (d <? 8))) with true by lia.
+    replace (week_ok y w d) with false; [reflexivity|]. unfold week_ok. lia. }
+  destruct (Z_lt_le_dec 7 d) as [D2|D2].
+  { unfold calculate_weekdate. replace (negb ((0 <? w) && (w <? 54))) with false by lia.
+    replace (negb ((0 <? d) && (d <? 8))) with true by lia.
+    replace (week_ok y w d) with false; [reflexivity|]. unfold week_ok. lia. }
+  destruct (Z_lt_le_dec y 1) as [Y1|Y1].
+  { unfold calculate_weekdate. replace (negb ((0 <? w) && (w <? 54))) with false by lia.
+    replace (negb ((0 <? d) && (d <? 8))) with false by lia.
+    unfold mk_date. replace (valid_ymd y 1 4) with false by (unfold valid_ymd; lia). cbn [bind].
+    replace (week_ok y w d) with false; [reflexivity|]. unfold week_ok, week_ord. cbv zeta.
+    assert (w1m (y + 1) <= 1).
+    { destruct (Z.eq_dec y 0) as [->|N]; [vm_compute; discriminate|].
+      assert (days_before_year (y + 1) <= days_before_year 0) by (apply days_before_year_mono; lia).
+      change (days_before_year 0) with (-366) in *. lia. }
+    lia. }
+  destruct (Z_lt_le_dec 9999 y) as [Y2|Y2].
+  { unfold calculate_weekdate. replace (negb ((0 <? w) && (w <? 54))) with false by lia.
+    replace (negb ((0 <? d) && (d <? 8))) with false by lia.
+    unfold mk_date. replace (valid_ymd y 1 4) with false by (unfold valid_ymd; lia). cbn [bind].
+    replace (week_ok y w d) with false; [reflexivity|]. unfold week_ok, week_ord. cbv zeta.
+    assert (max_ord < w1m y).
+    { destruct (Z.eq_dec y 10000) as [->|N]; [vm_compute; reflexivity|].
+      assert (days_before_year 10001 <= days_before_year y) by (apply days_before_year_mono; lia).
+      change (days_before_year 10001) with 3652425 in *. unfold max_ord. lia. }
+    lia. }
+  rewrite calculate_weekdate_spec by lia. unfold week_ok. cbv zeta.
+  assert (1 <= w1m y).
+  { assert (days_before_year 1 <= days_before_year y) by (apply days_before_year_mono; lia).
+    change (days_before_year 1) with 0 in *.
+    destruct (Z.eq_dec y 1) as [->|N]; [vm_compute; discriminate|].
+    assert (days_before_year (1 + 1) <= days_before_year y) by (apply days_before_year_mono; lia).
+    change (days_before_year (1 + 1)) with 365 in *. lia. }
+  assert (w1m y <= week_ord y w d) by (unfold week_ord; lia).
+  destruct (week_ord y w d <=? max_ord) eqn:E1, (week_ord y w d <? w1m (y + 1)) eqn:E2; cbn [andb].
+  - replace ((1 <=? week_ord y w d) && true && (w1m y <=? week_ord y w d) && true && (1 <=? d) && (d <=? 7))
+      with true by lia. reflexivity.
+  - replace ((1 <=? week_ord y w d) && true && (w1m y <=? week_ord y w d) && false && (1 <=? d) && (d <=? 7))
+      with false by lia. reflexivity.
+  - replace ((1 <=? week_ord y w d) && false && (w1m y <=? week_ord y w d) && true && (1 <=? d) && (d <=? 7))
+      with false by lia. reflexivity.
+  - replace ((1 <=? week_ord y w d) && false && (w1m y <=? week_ord y w d) && false && (1 <=? d) && (d <=? 7))
+      with false by lia. reflexivity.
+Qed.
+
+(* ISO year of a representable date is representable *)
+Lemma iso_year_range o : 1 <= o <= max_ord -> let '(y, w, d) := isocalendar o in 1 <= y <= 9999.
+Proof.
+  intros H. pose proof (iso_range o) as R. destruct (isocalendar o) as [[y w] d].
+  destruct R as (R & _).
+  pose proof (w1m_bounds y) as B0. pose proof (w1m_bounds (y + 1)) as B1. unfold max_ord in *.
+  split.
+  - destruct (Z_lt_le_dec y 1) as [L|L]; [|exact L]. exfalso.
+    assert (w1m (y + 1) <= 1).
+    { destruct (Z.eq_dec y 0) as [->|N]; [vm_compute; discriminate|].
+      assert (days_before_year (y + 1) <= days_before_year 0) by (apply days_before_year_mono; lia).
+      change (days_before_year 0) with (-366) in *. lia. }
+    lia.
+  - destruct (Z_lt_le_dec 9999 y) as [L|L]; [|exact L]. exfalso.
+    assert (3652059 < w1m y).
+    { destruct (Z.eq_dec y 10000) as [->|N]; [vm_compute; reflexivity|].
+      assert (days_before_year 10001 <= days_before_year y) by (apply days_before_year_mono; lia).
+      change (days_before_year 10001) with 3652425 in *. lia. }
+    lia.
+Qed.
+
+(* _calculate_weekdate is the inverse of date.isocalendar *)
+Theorem weekdate_inverse_ord o : 1 <= o <= max_ord ->
+  let '(y, w, d) := isocalendar o in calculate_weekdate y w d = Ok (ymd_of_ord o).
+Proof.
+  intros H. pose proof (iso_range o) as R. pose proof (iso_year_range o H) as Y.
+  destruct (isocalendar o) as [[y w] d]. destruct R as (R & Ew & Ed).
+  pose proof (w1m_succ y) as S1.
+  assert (O : week_ord y w d = o) by (unfold week_ord; lia).
+  rewrite calculate_weekdate_spec by lia. rewrite O.
+  replace ((o <=? max_ord) && (o <? w1m (y + 1))) with true by lia. reflexivity.
+Qed.
+
+Theorem weekdate_inverse_lemma y m d : valid_ymd y m d = true ->
+  let '(iy, iw, id) := isocalendar (ord_of_ymd y m d) in calculate_weekdate iy iw id = Ok (y, m, d).
+Proof.
+  intros V. pose proof (ord_of_ymd_range y m d V) as R.
+  pose proof (weekdate_inverse_ord _ R) as W.
+  destruct (isocalendar (ord_of_ymd y m d)) as [[iy iw] id]. rewrite W. f_equal.
+  apply ymd_of_ord_of_ymd; unfold valid_ymd in V; lia.
+Qed.
